@@ -83,6 +83,8 @@ impl<S: BuildHasher + Clone + 'static> LFUPolicy<S> {
         self.stop_tx
             .send(())
             .map_err(|e| CacheError::SendError(format!("{}", e)))?;
+        #[cfg(transparencies_stretto_verif)]
+        crate::verif::yield_point("polclose:after_stop");
         self.is_closed.store(true, Ordering::SeqCst);
         Ok(())
     }
